@@ -1,9 +1,9 @@
 #!/bin/sh
-# usage: tools/bs.sh PID [SRC_ROOT]  -> verify all refactorings of PID
-pid=$1; src=${2:-/tmp/wt5}
+# usage: tools/bs.sh PID [SRC_ROOT] [TAG]  -> verify all refactorings of PID
+pid=$1; src=${2:-/tmp/wt6}; tag=${3:-}
 for n in 1 2 3; do
   [ -f $src/$pid/ref_${pid}_$n.diff ] || continue
-  /venv/bin/python /verif/tools/benign.py verify $pid $n --src $src 2>&1 | /venv/bin/python -c "
+  /venv/bin/python /verif/tools/benign.py verify $pid $n --src $src ${tag:+--tag $tag} 2>&1 | /venv/bin/python -c "
 import sys,json
 t=sys.stdin.read()
 i=t.find('{')
